@@ -107,16 +107,17 @@ type Sim struct {
 	dials     map[int]*dialReq
 	broker    *Broker
 
-	faultsOff   atomic.Bool
-	yieldActive atomic.Int32
-	extensions  int
-	stepCap     int
-	events      int
-	steps       int
-	capHit      string
-	deferred    int
-	sp          bool
-	gate        chan struct{}
+	faultsOff     atomic.Bool
+	yieldActive   atomic.Int32
+	connAckParked atomic.Int32 // Connect calls parked at the H3 site (they hold the connect mutex)
+	extensions    int
+	stepCap       int
+	events        int
+	steps         int
+	capHit        string
+	deferred      int
+	sp            bool
+	gate          chan struct{}
 
 	// clients
 	bases    []*mqtt.BaseClient // all BaseClients created (index = conn-1)
@@ -195,6 +196,14 @@ func (s *Sim) yield(site string) {
 	s.log(Rec{Kind: "yield", S: site, V: d})
 	s.yieldActive.Add(1)
 	defer s.yieldActive.Add(-1)
+	if site == "base.afterConnAck" {
+		// parked inside Connect, which holds the client's connect mutex: no actor
+		// may be released into a call on that client meanwhile (it would sit on a
+		// sync.RWMutex, which is not a durable block), whatever the state callback
+		// has reported in between
+		s.connAckParked.Add(1)
+		defer s.connAckParked.Add(-1)
+	}
 	if s.race {
 		for i := int64(0); i < d%7+1; i++ {
 			runtimeGosched()
